@@ -41,15 +41,19 @@ class ErrorHandling:
         for token in self.tokens:
             if token is None:
                 continue
-            line = lines_idx[token.lineno]
+            # a value can span several lines (string literal with a newline): one part per line
+            index = token.index
+            for n, part in enumerate(token.value.split('\n')):
+                line = lines_idx[token.lineno + n]
 
-            if len(line) > token.index:
-                line = line[: token.index]
-            else:
-                line = line.ljust(token.index)
+                if len(line) > index:
+                    line = line[: index]
+                else:
+                    line = line.ljust(index)
 
-            line += token.value
-            lines_idx[token.lineno] = line
+                line += part
+                lines_idx[token.lineno + n] = line
+                index += len(part) + 1
 
         msgs = []
 
@@ -62,7 +66,7 @@ class ErrorHandling:
             error_index = len(lines_idx[error_line_num])
         else:
             msgs.append('Syntax error, unknown input:')
-            error_len = len(self.bad_token.value)
+            error_len = len(self.bad_token.value.split('\n')[0])
             error_line_num = self.bad_token.lineno
             error_index = self.bad_token.index
 
